@@ -14,8 +14,12 @@ PR, PG, PB, PA = (z3.Function(n, I, I) for n in ("px_r", "px_g", "px_b", "px_a")
 
 
 def px_range_axioms():
-    k = z3.Int("k!px")
-    return [z3.ForAll([k], z3.And(*[z3.And(f(k) >= 0, f(k) <= 255) for f in (PR, PG, PB)], z3.Or(PA(k) == 0, PA(k) == 255)))]
+    return []
+
+
+def px_facts(i):
+    """assumed contract of the pixel lists, instantiated where an element is read: components in [0, 255], alpha bi-level"""
+    return [z3.And(f(i) >= 0, f(i) <= 255) for f in (PR, PG, PB)] + [z3.Or(PA(i) == 0, PA(i) == 255)]
 
 
 VT_NUM = ("row", "col", "bottom", "nl", "line_idx", "line_w", "written", "skipped", "blk_col", "blk_line", "blk_id", "ech_to")
@@ -74,8 +78,17 @@ def block_world(ctx, eng, st, mode, bg_known, W, H):
         s = e.fork(s)
         im = s.new("PIL.Image", {"mode": mode, "from": a[0].id})
         n = W * (2 * H)
-        rgb = SeqV(n, lambda i, st_: (PR(to_z3(i)), PG(to_z3(i)), PB(to_z3(i))), "list")
-        al = SeqV(n, lambda i, st_: (PA(to_z3(i)) if mode == "RGBA" else 255), "list")
+        def rgb_elem(i, st_):
+            i = to_z3(i)
+            st_.pc += px_facts(i)
+            return (PR(i), PG(i), PB(i))
+
+        def a_elem(i, st_):
+            i = to_z3(i)
+            st_.pc += px_facts(i)
+            return PA(i) if mode == "RGBA" else 255
+        rgb = SeqV(n, rgb_elem, "list")
+        al = SeqV(n, a_elem, "list")
         return [((im, rgb, al), s)]
     eng.methods[("BlockImage", "_get_render_data")] = get_render_data
 
@@ -91,11 +104,20 @@ def in_range(v):
     return z3.And(*[z3.And(to_z3(c) >= 0, to_z3(c) <= 255) for c in v])
 
 
-def block_unit(mode, bg_known):
-    @unit("C01", f"block:BlockImage._render_image[{mode},bg={'known' if bg_known else 'unknown'}]")
+CELL_KEYS = [h + c for h in ("up", "lo") for c in "drgb"]
+
+
+def fresh_cells(tag):
+    return {k: z3.Array(f"cell_{k}!{tag}", I, z3.BoolSort() if k.endswith("d") else I) for k in CELL_KEYS}
+
+
+def block_unit(mode, bg_known, pixels=False):
+    prop = "C02" if pixels else "C01"
+
+    @unit(prop, f"block:BlockImage._render_image[{mode},bg={'known' if bg_known else 'unknown'}]" + ("/pixels" if pixels else ""))
     def u(ctx, mode=mode, bg_known=bg_known):
-        eng = ctx.engine(f"C01/block._render_image[{mode},bg={'known' if bg_known else 'unknown'}]", "C01")
-        eng.default_replay = "C01.render"
+        eng = ctx.engine(f"{prop}/block._render_image[{mode},bg={'known' if bg_known else 'unknown'}]", prop)
+        eng.default_replay = "C02.render" if pixels else "C01.render"
         st = State()
         W, H, r0, TW, TH, B0 = z3.Ints("W H r0 TW TH bottom0")
         st.pc += [W >= 1, H >= 1, TW >= W, TH >= H, r0 >= 0, B0 >= r0 + H - 1, B0 - TH + 1 <= r0] + px_range_axioms()
@@ -104,7 +126,50 @@ def block_unit(mode, bg_known):
         def line_pred(a, final):
             # each line of the render covers exactly W cells with printed glyphs, nothing skipped, nothing moved backwards
             return z3.And(a["line_w"] == W, a["written"] == W, a["skipped"] == 0, z3.Not(a["irregular"]))
-        st.ghost["vt"] = vt_new(r0, z3.IntVal(0), B0, TW, TH, line_pred=line_pred)
+        alpha_mode = mode == "RGBA"
+        bgc = bg
+
+        def adj(r):
+            return z3.If(r < 255, r + 1, r - 1)
+
+        def half_ok(cells, half, col, k, kitty_case):
+            """the half-cell at column `col` shows pixel k: terminal background if transparent, else its RGB value;
+            on kitty a background colour equal to the terminal's own background may be emitted with r +- 1"""
+            d, r_, g_, b_ = (cells[half + c][col] for c in "drgb")
+            transparent = PA(k) == 0 if alpha_mode else z3.BoolVal(False)
+            exact = z3.And(z3.Not(d), r_ == PR(k), g_ == PG(k), b_ == PB(k))
+            alt = z3.And(kitty_case, z3.Not(d), r_ == adj(PR(k)), g_ == PG(k), b_ == PB(k))
+            return z3.If(transparent, d, z3.Or(exact, alt))
+
+        def cell_ok(cells, col, k1, k2):
+            if bgc is not None:
+                eq_bg = lambda k: z3.And(PR(k) == bgc[0], PG(k) == bgc[1], PB(k) == bgc[2])
+                opaque = lambda k: (PA(k) != 0) if alpha_mode else z3.BoolVal(True)
+                case_lo = z3.And(on_kitty, eq_bg(k2), opaque(k1), opaque(k2))
+                case_up = z3.And(case_lo, PR(k1) == PR(k2), PG(k1) == PG(k2), PB(k1) == PB(k2))
+            else:
+                case_lo = case_up = z3.BoolVal(False)
+            return z3.And(half_ok(cells, "up", col, k1, case_up), half_ok(cells, "lo", col, k2, case_lo))
+
+        def same_cluster(s, k1, k2):
+            """pixel pair (k1, k2) looks the same as the current cluster (transparent pixels compare equal whatever their RGB)"""
+            c1, c2 = s.lookup("cluster1"), s.lookup("cluster2")
+            def same(k, c, ac):
+                rgb_eq = z3.And(PR(k) == to_z3(c[0]), PG(k) == to_z3(c[1]), PB(k) == to_z3(c[2]))
+                if not alpha_mode:
+                    return rgb_eq
+                ac = to_z3(ac)
+                return z3.If(PA(k) == 0, ac == 0, z3.And(ac != 0, rgb_eq))
+            return z3.And(same(k1, c1, s.lookup("a_cluster1")), same(k2, c2, s.lookup("a_cluster2")))
+
+        def line_pred_px(a, final, g=None):
+            return None
+
+        extra = {}
+        if pixels:
+            extra = dict(cells=fresh_cells("init"), glyphs={" ": 0, "\u2580": 1, "\u2584": 2},
+                         fg=(z3.BoolVal(True), z3.IntVal(0), z3.IntVal(0), z3.IntVal(0)), bg=(z3.BoolVal(True), z3.IntVal(0), z3.IntVal(0), z3.IntVal(0)))
+        st.ghost["vt"] = vt_new(r0, z3.IntVal(0), B0, TW, TH, line_pred=line_pred, **extra)
         img0 = st.new("PIL.Image", {"mode": "src"})
 
         def outer_inv(s, i, N):
@@ -115,6 +180,21 @@ def block_unit(mode, bg_known):
                           z3.Implies(i < H, z3.And(to_z3(g["line_w"]) == 0, to_z3(g["col"]) == 0, to_z3(g["written"]) == 0)),
                           z3.Implies(i == H, z3.And(to_z3(g["line_w"]) == W, to_z3(g["written"]) == W, z3.Not(g["last_nl"]), to_z3(g["col"]) == W)),
                           to_z3(g["skipped"]) == 0, z3.Not(g["irregular"]))
+
+        def px_outer(s, i, N):
+            cells = dict(s.ghost["vt"]["cells"])
+            base = 2 * W * (i - 1)
+            # the line completed last shows exactly its two pixel rows (proved for every i, hence for every line)
+            return [lambda c: z3.Implies(z3.And(i >= 1, 0 <= c, c < W), cell_ok(cells, c, base + c, base + W + c))]
+
+        def px_inner(s, j, N):
+            g = s.ghost["vt"]
+            cells = dict(g["cells"])
+            B = 2 * W * s.ghost["cur_line"]
+            pos = to_z3(g["line_w"])
+            frozen = s.fork()      # the cluster variables as they are now
+            return [lambda k: z3.Implies(z3.And(0 <= k, k < pos), cell_ok(cells, k, B + k, B + W + k)),
+                    lambda k: z3.Implies(z3.And(pos <= k, k < j), z3.And(same_cluster(frozen, B + k, B + W + k), *px_facts(B + k), *px_facts(B + W + k)))]
 
         def inner_inv(s, j, N):
             g = s.ghost["vt"]
@@ -136,7 +216,11 @@ def block_unit(mode, bg_known):
             for nm in ("cluster1", "cluster2", "px1", "px2"):
                 if nm in s.env:
                     s.env[nm] = T3(f"{nm}!{tag}")
-            havoc_vt(s, tag)
+            g = havoc_vt(s, tag)
+            if pixels:
+                g["cells"] = fresh_cells(tag)
+                g["fg"] = (z3.Bool(f"fgd!{tag}"),) + tuple(z3.Int(f"fg{c}!{tag}") for c in "rgb")
+                g["bg"] = (z3.Bool(f"bgd!{tag}"),) + tuple(z3.Int(f"bg{c}!{tag}") for c in "rgb")
 
         def havoc_outer(e, s, tag):
             havoc_inner(e, s, tag)
@@ -149,8 +233,8 @@ def block_unit(mode, bg_known):
 
         class Outer(LoopSpec):
             pass
-        outer = LoopSpec(outer_inv, havoc_outer)
-        inner = LoopSpec(inner_inv, havoc_inner)
+        outer = LoopSpec(outer_inv, havoc_outer, qinv=px_outer if pixels else None)
+        inner = LoopSpec(inner_inv, havoc_inner, qinv=px_inner if pixels else None)
         eng.invariants = {1: outer, 2: inner}
         # the inner invariant refers to the line being built: captured when the outer loop body starts
         orig_for_symbolic = eng.for_symbolic
@@ -180,3 +264,4 @@ def block_unit(mode, bg_known):
 for _mode in ("RGB", "RGBA"):
     for _bg in (True, False):
         block_unit(_mode, _bg)
+        block_unit(_mode, _bg, pixels=True)
